@@ -86,6 +86,7 @@ func (r DeliverResult) OK() bool { return r.Err == nil }
 func Deliver(ctx sdk.Context, router *baseapp.MsgServiceRouter, cdc codec.Codec, msg sdk.Msg) (res DeliverResult) {
 	cctx, write := ctx.CacheContext()
 	cctx = cctx.WithEventManager(sdk.NewEventManager())
+	gas0 := cctx.GasMeter().GasConsumed() // the meter is shared with the parent context: report the delta
 	func() {
 		defer func() {
 			if r := recover(); r != nil {
@@ -115,7 +116,7 @@ func Deliver(ctx sdk.Context, router *baseapp.MsgServiceRouter, cdc codec.Codec,
 			}
 		}
 	}()
-	res.GasUsed = cctx.GasMeter().GasConsumed()
+	res.GasUsed = cctx.GasMeter().GasConsumed() - gas0
 	if res.Err == nil {
 		write()
 	}
@@ -200,4 +201,27 @@ func Attr(e sdk.Event, key string) (string, bool) {
 		}
 	}
 	return "", false
+}
+
+// CopyState makes the stores of dst (a branch of another, independently constructed world) hold
+// exactly the raw key/value content of src.
+func CopyState(src sdk.Context, srcKeys []storetypes.StoreKey, dst sdk.Context, dstKeys []storetypes.StoreKey) {
+	for i, sk := range srcKeys {
+		d := dst.MultiStore().GetKVStore(dstKeys[i])
+		var del [][]byte
+		it := d.Iterator(nil, nil)
+		for ; it.Valid(); it.Next() {
+			del = append(del, append([]byte{}, it.Key()...))
+		}
+		it.Close()
+		for _, k := range del {
+			d.Delete(k)
+		}
+		s := src.MultiStore().GetKVStore(sk)
+		it = s.Iterator(nil, nil)
+		for ; it.Valid(); it.Next() {
+			d.Set(append([]byte{}, it.Key()...), append([]byte{}, it.Value()...))
+		}
+		it.Close()
+	}
 }
